@@ -178,13 +178,205 @@ fn random_bytes_case(cfg: &Cfg, worker: u64, idx: u64, rep: &mut Report) {
         }
     };
     rep.eval();
-    let (out, _) = run_plain(&world, ready);
+    let out = if idx % 2 == 1 {
+        // on an interpreter that ran another random program over the same world before
+        // (storage put back): frames, receipts, caches of the predecessor must not matter
+        let n0 = 1 + rng.usize_below(80);
+        let mut pre = spec.clone();
+        pre.script = prog::random_bytes_program(&mut rng, n0);
+        for id in &ids {
+            pre.script.extend_from_slice(id.as_ref());
+        }
+        pre.gas_limit = rng.below(60_000);
+        let mut vm = crate::world::new_vm(&world);
+        if let Ok(Ok(r0)) = guarded(|| pre.ready(&world, idx ^ 0x5050)) {
+            let _ = guarded(|| vm.transact(r0).map(|s| *s.state()));
+            rep.count("random_byte_programs_on_a_reused_interpreter");
+        }
+        *vm.as_mut() = RecStorage::new(world.storage.clone());
+        let state = match guarded(|| vm.transact(ready).map(|s| *s.state())) {
+            Ok(Ok(s)) => Ok(s),
+            Ok(Err(e)) => Err(format!("{e:?}")),
+            Err(p) => Err(format!("HOST PANIC: {}", p.text)),
+        };
+        crate::world::outcome_of(&world, &vm, state)
+    } else {
+        run_plain(&world, ready).0
+    };
     judge_outcome(rep, "random bytes", &out, false, &replay);
     match &out.state {
         Ok(s) => rep.class(format!("random-bytes|{}", super::grp_e::state_class(s, &out))),
         Err(_) => rep.class("random-bytes|error"),
     }
     rep.count("random_byte_programs");
+}
+
+/// F: the receipt limit. A counted LOG loop brings the context to within a few receipts of
+/// the 65,535 limit, then a tail of receipt-producing instructions of other kinds (LOGD,
+/// calls to tiny contracts that return, return data, log, revert or panic) and an end
+/// (RET, RETD, RVRT, an invalid instruction) runs into the reserved last slots; G: pairs of generated transactions over one world run on one interpreter (the first call-heavy and often ending inside a callee).
+fn flood_limit_case(cfg: &Cfg, worker: u64, idx: u64, rep: &mut Report) {
+    use fuel_asm::{
+        GTFArgs,
+        RegId,
+        op,
+    };
+    let mut rng = Rng::derive(cfg.seed ^ (0x29f << 32), worker, idx);
+    let mut world = World::new(ConsensusParameters::standard(), 0);
+    let tiny: [Vec<fuel_asm::Instruction>; 6] = [
+        vec![op::ret(RegId::ONE)],
+        vec![op::rvrt(RegId::ONE)],
+        vec![op::log(RegId::ONE, RegId::ZERO, RegId::ZERO, RegId::ZERO), op::log(RegId::ONE, RegId::ZERO, RegId::ZERO, RegId::ZERO), op::ret(RegId::ONE)],
+        vec![op::movi(0x10, 8), op::retd(RegId::ZERO, 0x10)],
+        vec![op::movi(0x10, 8), op::logd(RegId::ZERO, RegId::ZERO, RegId::ZERO, 0x10), op::ret(RegId::ZERO)],
+        vec![op::ret(RegId::ONE)],
+    ];
+    let mut ids = vec![];
+    for (k, c) in tiny.iter().enumerate() {
+        let mut code: Vec<u8> = c.iter().copied().collect();
+        if k == 5 {
+            // an undefined opcode: the callee panics
+            code = vec![0xff, 0, 0, 0];
+        }
+        ids.push(world.install_contract(code, Salt::new([k as u8; 32]), vec![]));
+    }
+    // call structures in the script data: id ++ two parameter words
+    let mut data = vec![];
+    for id in &ids {
+        data.extend_from_slice(id.as_ref());
+        data.extend_from_slice(&[0u8; 16]);
+    }
+    let limit = 65_535i64;
+    let before_tail = limit - 6 + rng.below(8) as i64;
+    // the loop itself produces `n` receipts
+    let n = before_tail.max(1) as u32;
+    let mut code = vec![op::gtf_args(0x12, RegId::ZERO, GTFArgs::ScriptData), op::movi(0x11, 8), op::movi(0x10, n)];
+    code.push(op::log(0x10, RegId::ZERO, RegId::ZERO, RegId::ZERO));
+    code.push(op::subi(0x10, 0x10, 1));
+    code.push(op::jnzb(0x10, RegId::ZERO, 1));
+    let mut shape = vec![];
+    for _ in 0..rng.below(7) {
+        match rng.below(4) {
+            0 => {
+                code.push(op::log(RegId::ONE, RegId::ZERO, RegId::ZERO, RegId::ZERO));
+                shape.push("log".to_string());
+            }
+            1 => {
+                code.push(op::logd(RegId::ZERO, RegId::ZERO, RegId::ZERO, 0x11));
+                shape.push("logd".to_string());
+            }
+            _ => {
+                let k = rng.below(6) as u32;
+                code.push(op::addi(0x13, 0x12, (k * 48) as u16));
+                code.push(if rng.bool() { op::move_(0x14, RegId::CGAS) } else { op::movi(0x14, 10_000) });
+                code.push(op::call(0x13, RegId::ZERO, 0x13, 0x14));
+                shape.push(format!("call{k}"));
+            }
+        }
+    }
+    match rng.below(4) {
+        0 => code.push(op::ret(RegId::ONE)),
+        1 => code.push(op::retd(RegId::ZERO, 0x11)),
+        2 => code.push(op::rvrt(RegId::ONE)),
+        _ => {}
+    }
+    let mut script: Vec<u8> = code.into_iter().collect();
+    if script.len() % 8 != 0 || rng.bool() {
+        // falls through into an undefined opcode (also the "no end" case above)
+        script.extend_from_slice(&[0xff, 0, 0, 0]);
+    }
+    let spec = ScriptSpec { script, data, gas_limit: 60_000_000, max_fee: 0, coins: vec![(0, 0, 1_000_000)], contracts: ids.clone(), change: vec![0], ..Default::default() };
+    let replay = json!({"kind": "flood-limit", "seed": cfg.seed, "worker": worker, "index": idx, "loop": n, "tail": shape});
+    let ready = match guarded(|| spec.ready(&world, idx)) {
+        Ok(Ok(r)) => r,
+        Ok(Err(e)) => {
+            rep.count("generated_tx_rejected_by_checks");
+            if rep.counter("generated_tx_rejected_by_checks") <= 2 {
+                rep.note(format!("flood-limit script rejected: {}", &e[..e.len().min(120)]));
+            }
+            return;
+        }
+        Err(p) => {
+            rep.violation(format!("C29|checking|host panic|{}", p.site()), p.text, || replay.clone());
+            return;
+        }
+    };
+    rep.eval();
+    let (out, _) = run_plain(&world, ready);
+    judge_outcome(rep, "receipt-limit flood", &out, false, &replay);
+    let nrec = out.receipts.len() as i64;
+    rep.class(format!("flood-limit|receipts={}|{}", if nrec >= limit - 1 { "limit".to_string() } else { format!("limit-{}", (limit - nrec).min(9)) }, match &out.state {
+        Ok(s) => super::grp_e::state_class(s, &out),
+        Err(_) => "error".into(),
+    }));
+    rep.count("flood_limit_cases");
+    if nrec >= limit - 2 {
+        rep.count("flood_limit_cases_reaching_the_reserved_slots");
+    }
+}
+
+/// G: two generated transactions over one world on one interpreter. The first (call-heavy,
+/// often ending in a revert or panic inside a callee, with part of the gas forwarded) leaves
+/// frames, receipts, caches and registers behind; whatever the second one does, the host
+/// must not crash or report an internal bug.
+fn reuse_case(cfg: &Cfg, worker: u64, idx: u64, rep: &mut Report) {
+    let mut rng = Rng::derive(cfg.seed ^ (0x29e << 32), worker, idx);
+    let mut w = Weights::default();
+    w.call = 30;
+    w.flow = 8;
+    w.hostile = 80;
+    let mut cw = w.clone();
+    cw.hostile = 200;
+    let o = ScenarioOpts { weights: w.clone(), contract_weights: cw, tight_gas: 150, mid_gas: 300, max_contracts: 3, ..Default::default() };
+    let sc = scenario::build(&mut rng, &o);
+    let replay = json!({"kind": "reuse", "seed": cfg.seed, "worker": worker, "index": idx});
+    let Ok(first) = sc.spec.ready(&sc.world, idx) else {
+        rep.count("generated_tx_rejected_by_checks");
+        return;
+    };
+    let mut vm = new_vm(&sc.world);
+    let s1 = match guarded(|| vm.transact(first).map(|s| *s.state())) {
+        Ok(Ok(s)) => Ok(s),
+        Ok(Err(e)) => Err(format!("{e:?}")),
+        Err(p) => Err(format!("HOST PANIC: {}", p.text)),
+    };
+    let out1 = outcome_of(&sc.world, &vm, s1);
+    rep.eval();
+    judge_outcome(rep, "reused interpreter (first transaction)", &out1, false, &replay);
+    let in_call = out1.receipts.iter().filter(|r| matches!(r, fuel_tx::Receipt::Call { .. })).count() > out1.receipts.iter().filter(|r| matches!(r, fuel_tx::Receipt::Return { .. } | fuel_tx::Receipt::ReturnData { .. })).count();
+    // the second transaction: another script over the same world, usually with less gas
+    let mut spec2 = sc.spec.clone();
+    let mut w2 = Weights::default();
+    w2.call = if rng.bool() { 20 } else { 0 };
+    w2.flow = 10;
+    let n = 1 + rng.below(12) as usize;
+    spec2.script = prog::generate(&mut rng, &sc.env, prog::Mode::Script, w2, n).bytes;
+    spec2.gas_limit = match rng.below(3) {
+        0 => rng.below(300),
+        1 => rng.below((sc.spec.gas_limit / 2).max(2)),
+        _ => sc.spec.gas_limit,
+    };
+    let Ok(second) = spec2.ready(&sc.world, idx ^ 0x7777) else {
+        rep.count("generated_tx_rejected_by_checks");
+        return;
+    };
+    *vm.as_mut() = RecStorage::new(sc.world.storage.clone());
+    let s2 = match guarded(|| vm.transact(second).map(|s| *s.state())) {
+        Ok(Ok(s)) => Ok(s),
+        Ok(Err(e)) => Err(format!("{e:?}")),
+        Err(p) => Err(format!("HOST PANIC: {}", p.text)),
+    };
+    let out2 = outcome_of(&sc.world, &vm, s2);
+    rep.eval();
+    judge_outcome(rep, "reused interpreter (second transaction)", &out2, false, &replay);
+    rep.class(format!("reuse|first ended {}|second {}", if in_call { "inside a call" } else { "at script level" }, match &out2.state {
+        Ok(s) => super::grp_e::state_class(s, &out2).split(':').next().unwrap_or("").to_string(),
+        Err(_) => "error".into(),
+    }));
+    rep.count("reuse_pairs");
+    if in_call {
+        rep.count("reuse_pairs_first_ended_inside_a_call");
+    }
 }
 
 /// C: storage faults injected at the k-th access
@@ -361,7 +553,7 @@ fn bus_part(cfg: &Cfg) -> Report {
     drive(cfg, &d)
 }
 
-const PARTS: [&str; 5] = ["generated programs on the step bus", "random byte programs", "storage fault injection", "checking free-form transactions", "many distinct input assets"];
+const PARTS: [&str; 7] = ["generated programs on the step bus", "random byte programs", "storage fault injection", "checking free-form transactions", "many distinct input assets", "receipt-limit floods", "two transactions on one interpreter"];
 
 /// one shard, run inside a child process (single thread); `cfg.threads` is the number of
 /// shards so that budgets are split
@@ -403,6 +595,20 @@ fn run_shard(cfg: &Cfg, shards: u64, from_part: u64, from_idx: u64) -> Report {
             many_assets_case(cfg, 0, i, &mut rep);
         }
     }
+    let nl = cfg.budget(96, 6000) / shards;
+    if from_part <= 5 {
+        for i in start(5)..nl.max(2) {
+            crate::progress(5, i);
+            flood_limit_case(cfg, 0, i, &mut rep);
+        }
+    }
+    let nr = cfg.budget(6000, 600_000) / shards;
+    if from_part <= 6 {
+        for i in start(6)..nr.max(2) {
+            crate::progress(6, i);
+            reuse_case(cfg, 0, i, &mut rep);
+        }
+    }
     rep
 }
 
@@ -421,6 +627,8 @@ pub fn run(cfg: &Cfg) -> Report {
             Some("random-bytes") => random_bytes_case(&c2, w, i, &mut rep),
             Some("checking") => checking_case(&c2, w, i, &mut rep),
             Some("many-assets") => many_assets_case(&c2, w, i, &mut rep),
+            Some("flood-limit") => flood_limit_case(&c2, w, i, &mut rep),
+            Some("reuse") => reuse_case(&c2, w, i, &mut rep),
             Some("abort") => {
                 // re-run the case that killed a child (in-process: a crash reproduces it)
                 match c["part"].as_u64().unwrap_or(0) {
@@ -432,7 +640,9 @@ pub fn run(cfg: &Cfg) -> Report {
                     1 => random_bytes_case(&c2, 0, i, &mut rep),
                     2 => fault_case(&c2, 0, i, &mut rep),
                     3 => checking_case(&c2, 0, i, &mut rep),
-                    _ => many_assets_case(&c2, 0, i, &mut rep),
+                    4 => many_assets_case(&c2, 0, i, &mut rep),
+                    5 => flood_limit_case(&c2, 0, i, &mut rep),
+                    _ => reuse_case(&c2, 0, i, &mut rep),
                 }
                 rep.note("the recorded case was re-run in-process without crashing");
             }
@@ -507,7 +717,7 @@ pub fn run(cfg: &Cfg) -> Report {
                 format!("signal {sig:?}")
             };
             rep.violation(
-                format!("C29|host process aborted|{kind}|{}", PARTS[part.min(4) as usize]),
+                format!("C29|host process aborted|{kind}|{}", PARTS[part.min(6) as usize]),
                 format!("child worker killed (status {:?}) while executing case part={part} index={idx} seed={seed}: {tail}", o.status),
                 || json!({"kind": "abort", "part": part, "seed": seed, "worker": 0, "index": idx}),
             );
@@ -522,12 +732,14 @@ pub fn run(cfg: &Cfg) -> Report {
         }
         rep
     });
-    rep.rule = "A: hostile grammar programs (scripts+contracts) on the step bus under the default, unit and randomised schedules: end state is a program state, $ggas strictly decreases per executed instruction and steps <= gas limit under the default schedule; B: uniformly random byte scripts/contracts (70% defined opcodes); C: storage error injected at the k-th access; D: into_checked/estimate_predicates on free-form transactions of all kinds. Oracle: no host panic, no host abort, no Bug error, only program states or (injected) storage errors. class = (workload, end state / error kind)".into();
+    rep.rule = "A: hostile grammar programs (scripts+contracts) on the step bus under the default, unit and randomised schedules: end state is a program state, $ggas strictly decreases per executed instruction and steps <= gas limit under the default schedule; B: uniformly random byte scripts/contracts (70% defined opcodes); C: storage error injected at the k-th access; D: into_checked/estimate_predicates on free-form transactions of all kinds; E: transactions with up to 255 distinct input assets; F: scripts that fill the receipt context to within a few receipts of the 65,535 limit and then run a tail of LOG/LOGD/CALLs to returning, reverting, logging and panicking contracts into the reserved last slots; G: pairs of generated transactions over one world run on one interpreter (the first call-heavy and often ending inside a callee). Oracle: no host panic, no host abort, no Bug error, only program states or (injected) storage errors. class = (workload, end state / error kind)".into();
     rep.assume("every shard of the workload runs in a child process of the monitor; the case about to run is written to a progress file first, so a child killed by a signal (allocation failure, stack overflow) is reported with the case it was executing");
     rep.gates.clear();
     rep.gate("gas_progress_steps_checked", rep.counter("gas_progress_steps_checked"), 10_000);
     rep.gate("random_byte_programs", rep.counter("random_byte_programs"), 1000);
     rep.gate("fault_cases", rep.counter("fault_cases"), 50);
+    rep.gate("reuse_pairs_first_ended_inside_a_call", rep.counter("reuse_pairs_first_ended_inside_a_call"), 100);
+    rep.gate("flood_limit_cases_reaching_the_reserved_slots", rep.counter("flood_limit_cases_reaching_the_reserved_slots"), 8);
     rep.gate("injected_storage_error_reported", rep.counter("injected_storage_error_reported"), 50);
     rep
 }
